@@ -47,4 +47,10 @@ run P33-sp-import-label3-order C12
 run P34-from-graphs-fleeting-as-plain C08
 run P35-planar-bond-compares-wrong-vectors C07 C14
 run P36-symmetry-number-without-stereo C05
+run P37-sulfur-hexavalent-first C18
+run P38-scrg-subgraph-drops-stereo-changes C17
+run P39-subgraph-consumes-one-shot-iterator C17
+run P40-scrg-copy-ctor-shares-change-dicts C10
+run P41-scrg-remove-atom-keeps-stereo-changes C09
+run P42-attribute-tables-autovivify C09 C19
 echo DONE >> mutants/planned_matrix.txt
